@@ -13,6 +13,7 @@ from ..ir import call_target, strip_casts
 from ..cfgutil import expr_key
 from ..pathenum import enumerate_paths
 from ..e1results import get_many, witness_of
+from ..e1 import Imprecise
 from ..e1explore import Concrete, URI, ERRPOS
 from ..e1 import END, MEM, NULL, SAFE
 from ..tables import base_name
@@ -96,6 +97,15 @@ def rule_ip4_sites(ctx, chk, suf):
                 ip4key = args[0][:-len('->data')]
                 cleared = a.get(ip4key) == '0' and any(x[0] == 'call' and x[1] == 'memory->free' and x[2][-1] == ip4key for x in p.events)
                 hostend = [x for x in p.events if x[0] == 'assign' and x[1].endswith('hostText.afterLast')]
+                # the host end is written in the same function: it has to be written before the recogniser reads it
+                idx_call = p.events.index(e)
+                ends_before = [x for x in p.events[:idx_call] if x[0] == 'assign' and x[1].endswith('hostText.afterLast')]
+                ends_after = [x for x in p.events[idx_call:] if x[0] == 'assign' and x[1].endswith('hostText.afterLast')]
+                stale = bool(ends_after) and not ends_before
+                if stale:
+                    chk.bad('ip4-classification', 'ip4-site:%s:stale-end' % base_name(name), e[4], '%s: the recogniser is called on (hostText.first, '
+                            'hostText.afterLast) before this function has written the host end (written afterwards on the same path): it '
+                            'classifies a stale range' % name, func=name)
                 ok = okargs and failed is not None and (cleared == bool(failed))
                 chk.add('ip4-classification', 'ip4-site:%s:%s' % (name, 'fail' if failed else 'ok'), ok, e[4],
                         '%s: recogniser called on (%s, %s); result %s; address block %s'
@@ -467,11 +477,20 @@ def run(ctx, chk):
         rule_ip4_sites(ctx, chk, suf)
         rule_push_shape(ctx, chk, suf)
     shapes = 0
-    for suf in (sufs if chk.tier == 'thorough' else ('A',)):
-        shapes = rule_address_bytes(ctx, chk, suf)
     nsamp = 0
-    for suf in (sufs if chk.tier == 'thorough' else ('A',)):
-        nsamp = rule_boundary_samples(ctx, chk, suf)
+    try:
+        for suf in (sufs if chk.tier == 'thorough' else ('A',)):
+            shapes = rule_address_bytes(ctx, chk, suf)
+        for suf in (sufs if chk.tier == 'thorough' else ('A',)):
+            nsamp = rule_boundary_samples(ctx, chk, suf)
+    except Imprecise as ex:
+        # the evaluation from source met something it does not model (e.g. a relational comparison with a null pointer).
+        # If the structural rules have already named a violating construct that verdict stands; otherwise the analysis is broken.
+        if not any(not o.ok for o in chk.obls):
+            raise
+        chk.analysed['evaluation_stopped'] = str(ex)
+        for r in ('address-bytes', 'boundary-samples'):
+            chk.floors.pop(r, None)
     chk.analysed['boundary_sample_inputs'] = nsamp
     if chk.tier == 'thorough':
         rule_pebbles(ctx, chk, ('A',))
